@@ -37,7 +37,7 @@ struct Runner {
     if (shm == MAP_FAILED) { perror("mmap slots"); exit(2); }
   }
 
-  struct Result { bool violated = false; std::string key, text; uint64_t trace = 0; std::vector<std::string> tracelog; bool harness = false; std::string hmsg; long steps = 0; std::string description; std::map<std::string, long> counters; uint64_t outcome = 0; std::string tree; std::vector<std::pair<std::string, std::string>> softs; };
+  struct Result { bool violated = false; std::string key, text; uint64_t trace = 0; std::vector<std::string> tracelog; bool harness = false, starved = false; std::string hmsg; long steps = 0; std::string description; std::map<std::string, long> counters; uint64_t outcome = 0; std::string tree; std::vector<std::pair<std::string, std::string>> softs; };
 
   Result run_one(const Item *it, bool keep_trace) {
     Result res;
@@ -46,7 +46,7 @@ struct Runner {
     for (int i = 0; i < VK_NSLOTS; i++) shm->slot[i].state = 0;
     ex.begin(it);
     try { w.run(); }
-    catch (HarnessError &e) { res.harness = true; res.hmsg = e.msg; }
+    catch (HarnessError &e) { res.harness = true; res.hmsg = e.msg; res.starved = e.starved && ex.new_outcomes == 0; }
     catch (Hang &h) { if (w.crash_soft) w.soft_violation(h.key, h.text); else w.violation(h.key, h.text); }
     w.kill_all_real();
     if (ex.diverged) { res.harness = true; res.hmsg = "nondeterminism: " + ex.diverge_msg; }
@@ -98,6 +98,7 @@ struct Runner {
           if (!sh->head[L].compare_exchange_strong(h, h + 1)) { sh->active--; continue; }
           if (cfg.max_execs >= 0 && sh->stat[0].load() >= cfg.max_execs) { sh->active--; sh->stop.store(2); goto done; }
           Result r = run_one(it, false); nexec++;
+          for (int again = 0; r.harness && r.starved && again < 2; again++) { sh->stat[VK_NSTAT - 2]++; r = run_one(it, false); }   // executions are deterministic: one lost to an overloaded machine is simply run again
           sh->stat[0]++; sh->stat[1] += r.steps; sh->stat[2] += ex.npoints; sh->level_execs[L]++;
           for (auto &c : r.counters) totals[c.first] += c.second;
           for (auto &sv : r.softs) if (softs.size() < 200 && !softs.count(sv.first)) softs[sv.first] = sv.second + " [choices " + item_str(it) + "]";
